@@ -4,6 +4,7 @@ package main
 // by client time, singleton, look-up key material.
 
 import (
+	"sort"
 	"fmt"
 	"go/types"
 	"strings"
@@ -313,6 +314,95 @@ func runC02(w *World, c *Check) {
 				path := fa.PathToInstrAvoiding(pass, in)
 				c.Decide(path == nil, "C02.retention", FuncKey(fn), "delete entries", where, "a client's record is deleted only when its replay map is empty", "delete reachable without the 'replay map is empty' edge: "+fa.DescribePath(path))
 			}
+		}
+	}
+	// look-up and insert address the same slot: across the functions of the cache, every look-up and
+	// every insert on the client map (and on the per-client replay map) computes its key from the
+	// authenticator in one and the same way — a look-up under a normalised name next to an insert
+	// under the raw one never finds what was recorded
+	{
+		keysOf := map[string]map[string]string{"entries": {}, "replayMap": {}}
+		for _, fn := range svcFns {
+			fa := NewFuncAn(w, fn)
+			norm := func(t string) string {
+				for _, p := range fn.Params {
+					if strings.HasSuffix(p.Type().String(), "types.Authenticator") {
+						t = renameIdents(t, map[string]string{fa.R.R(p): "A"})
+					}
+				}
+				return t
+			}
+			for _, b := range fn.Blocks {
+				for _, in := range b.Instrs {
+					acc, ok := classifyMapAccess(in, entries, replay)
+					if !ok {
+						continue
+					}
+					var key ssa.Value
+					switch x := in.(type) {
+					case *ssa.Lookup:
+						key = x.Index
+					case *ssa.MapUpdate:
+						key = x.Key
+					}
+					if key == nil {
+						continue
+					}
+					t := norm(fa.R.R(key))
+					if !strings.Contains(t, "A.") {
+						continue // keyed by a loop variable / a value passed in: not computed from the authenticator here
+					}
+					keysOf[acc.which][t] = FuncKey(fn) + " at " + w.Pos(InstrPos(in))
+				}
+			}
+		}
+		for _, which := range []string{"entries", "replayMap"} {
+			var forms []string
+			for t, at := range keysOf[which] {
+				forms = append(forms, t+" ("+at+")")
+			}
+			sort.Strings(forms)
+			c.Decide(len(forms) == 1, "C02.atomic", "service", "one-key:"+which, "-", "every look-up and insert on the "+which+" map derives its key from the authenticator in the same way", fmt.Sprintf("%d different key computations: %s", len(forms), strings.Join(forms, " ; ")))
+		}
+	}
+	// the janitor ages entries by the skew it was created with: ClearOldEntries receives the duration
+	// parameter itself, not a quantity derived from it (a sweep period is not a maximum age)
+	for _, fn := range w.ModuleFuncs() {
+		if fn.Pkg == nil || relPkg(fn.Pkg.Pkg.Path()) != "service" {
+			continue
+		}
+		fa := NewFuncAn(w, fn)
+		for _, ci := range fa.Calls(`service\.\(\*Cache\)\.ClearOldEntries`) {
+			args := ci.Common().Args
+			if len(args) != 2 {
+				continue
+			}
+			v := args[1]
+			okArg := false
+			switch x := v.(type) {
+			case *ssa.Parameter:
+				okArg = x.Type().String() == "time.Duration"
+			case *ssa.FreeVar:
+				okArg = true // captured variable: checked at the closure's creation below
+				_ = x
+			case *ssa.UnOp:
+				if fv, isFV := x.X.(*ssa.FreeVar); isFV {
+					okArg = strings.HasSuffix(fv.Type().String(), "time.Duration")
+				}
+			}
+			if okArg && fn.Parent() != nil {
+				// the captured duration is a parameter of an enclosing function
+				okArg = false
+				name := strings.TrimLeft(fa.R.R(v), "^")
+				for anc := fn.Parent(); anc != nil; anc = anc.Parent() {
+					for _, p := range anc.Params {
+						if p.Type().String() == "time.Duration" && name == p.Name() {
+							okArg = true
+						}
+					}
+				}
+			}
+			c.Decide(okArg, "C02.retention", FuncKey(fn), "janitor-age", w.Pos(InstrPos(ci)), "clean-up is asked to drop entries older than the skew duration the cache was created for", "ClearOldEntries is called with "+fa.R.R(v)+", not the duration parameter")
 		}
 	}
 	// accepting is recording: every path of IsReplay that answers "not a replay" has stored the
